@@ -27,6 +27,10 @@ CHECKS["C14"] = ("runtime monitor: file of every diagnostic vs independent refer
   "Programs with regular, in-package and external test files and pool-token files (containing annotated types, file-level @ignore, violations) are run under scan-tests {off,on} x exclude-paths {empty, default, one, three tokens}: no diagnostic may lie in an excluded file, neutralising all annotations/@ignore inside excluded files must not change any diagnostic, and every line is judged by the reference model (test files never receive TONL).",
   SITE_NOTE, "DESIGN.md §3 C14")
 
+CHECKS["C19"] = ("runtime model comparison: messages produced by the real reporting.Reporter on synthetic files vs excerpt/caret/length oracle",
+  "The real Reporter renders every (line length 0..3x limit, column 1..len+1) ASCII case (quick: every 3rd length plus all regime boundaries; thorough: all) and tens of thousands of tab / multi-byte / first-last-only-line / long-context / unreadable / shorter-on-disk / 64KB+ cases; each message is parsed and checked: excerpt = source line or ellipsis + contiguous substring + ellipsis within limit+6 containing the reported character, caret offset in characters with tabs mirrored, context lines are the neighbours, degraded inputs give no caret on a wrong line and no panic.",
+  "trusts go/token position arithmetic; display limit read from reporting.MaxLineLength; East-Asian wide runes and column len+1 are FREE for caret placement", "DESIGN.md §3 C19")
+
 PENDING_REASON = "monitor for this property is still under construction in this round (designed in DESIGN.md §3; not claimed until its check is silent on the unchanged tree)"
 def main():
     checks = []
